@@ -25,16 +25,16 @@ type BatchReq struct {
 
 // Outcome of one world.
 type Outcome struct {
-	Class     string          `json:"class,omitempty"` // "" = property held
-	Msg       string          `json:"msg,omitempty"`
-	Sig       string          `json:"sig,omitempty"` // stable identity of what fails (for known findings)
-	LogHash   string          `json:"log_hash"`
-	SchedFP   string          `json:"sched_fp"`
-	Branching int             `json:"branching"`
-	Nontrivial bool           `json:"nontrivial"`
-	CaseKey   string          `json:"case_key,omitempty"` // identity of the case for distinct counting
-	Detail    json.RawMessage `json:"detail,omitempty"`
-	Result    *simrt.Result   `json:"result,omitempty"`
+	Class      string          `json:"class,omitempty"` // "" = property held
+	Msg        string          `json:"msg,omitempty"`
+	Sig        string          `json:"sig,omitempty"` // stable identity of what fails (for known findings)
+	LogHash    string          `json:"log_hash"`
+	SchedFP    string          `json:"sched_fp"`
+	Branching  int             `json:"branching"`
+	Nontrivial bool            `json:"nontrivial"`
+	CaseKey    string          `json:"case_key,omitempty"` // identity of the case for distinct counting
+	Detail     json.RawMessage `json:"detail,omitempty"`
+	Result     *simrt.Result   `json:"result,omitempty"`
 }
 
 type Violation struct {
